@@ -37,6 +37,84 @@ def validate(args):
     return viols[-1] if viols else []
 
 
+def flatten(run):
+    """one run of `hqv stream` (direct mode) -> one model action of StreamModel per line (see StreamModelTrace.tla)"""
+    out = [{"a": "Reset", "run": run["run"], "k": 0}]
+    wof = {}
+    k = 0
+    for st in run["steps"]:
+        k += 1
+        for ev in st["evs"]:
+            kind = ev[0]
+            if kind == "start":
+                _, t, i, w = ev
+                wof[(t, i)] = w
+                out.append({"a": "Start", "t": t, "i": i, "w": w, "k": k})
+            elif kind == "write":
+                _, t, i, c, name, size = ev
+                out.append({"a": "Write", "t": t, "i": i, "c": c, "n": size, "name": name, "k": k})
+                out.append({"a": "Writer", "w": wof[(t, i)], "k": k})
+            elif kind == "close":
+                _, t, i, c = ev
+                out.append({"a": "CloseChan", "t": t, "i": i, "c": c, "k": k})
+                out.append({"a": "Writer", "w": wof[(t, i)], "k": k})
+            elif kind == "flush":
+                _, t, i = ev
+                out.append({"a": "EndReq", "t": t, "i": i, "k": k})
+                out.append({"a": "Writer", "w": wof[(t, i)], "k": k})
+            elif kind == "end":
+                _, t, i, r = ev
+                out.append({"a": "Abandon", "t": t, "i": i, "k": k} if r == "crashed" else {"a": "Report", "t": t, "i": i, "r": r, "k": k})
+            elif kind == "crash":
+                out.append({"a": "Absorb", "w": ev[1], "files": st["files"], "k": k})
+                out.append({"a": "Crash", "w": ev[1], "k": k})
+        if st.get("stable", True):
+            out.append({"a": "Obs", "files": st["files"], "read": st["read"], "open_err": st["open_err"], "pan": st["pan"], "k": k})
+    return out
+
+
+def conform(args):
+    """the recorded steps against the state machine StreamModel -> (lines, {divergence name: runs})"""
+    workdir, trace = args
+    flat = trace.replace(".ndjson", "-flat.ndjson")
+    n = 0
+    with open(flat, "w") as f:
+        for line in open(trace):
+            r = json.loads(line)
+            if r.get("steps"):
+                for x in flatten(r):
+                    f.write(json.dumps(x) + "\n")
+                    n += 1
+    if n == 0:
+        return 0, {}
+    out = common.tlc("StreamModelTrace.tla", "StreamModelTrace.cfg", workdir, env={"TRACE": flat}, workers=1, timeout=3600)
+    verdict = common.tlc_printed(out, "VERDICT")
+    viols = common.tlc_printed(out, "VIOL")
+    if not verdict or "Model checking completed. No error has been found." not in out or verdict[-1]["diameter"] - 1 != verdict[-1]["lines"]:
+        raise common.ToolError("stream model trace validation did not complete:\n" + out[-3000:])
+    div = {}
+    for v in (viols[-1] if viols else []):
+        div.setdefault(v["p"], set()).add(v["run"])
+    return n, {k: len(v) for k, v in div.items()}
+
+
+MC = {"quick": ["MC_Stream_S0.cfg"], "thorough": ["MC_Stream_S0.cfg", "MC_Stream_S1.cfg", "MC_Stream_S2.cfg"]}
+
+
+def model_check(tier):
+    res = [common.model_check_cached("StreamModel.tla", c, ["StreamModel.tla"], workers=8, timeout=3 * 3600) for c in MC[tier]]
+    # anti-vacuity: the wrong design "flush only when nothing is queued behind the request" must be refuted by the same invariants
+    work = common.scratch()
+    try:
+        out = common.tlc("StreamModel.tla", "MC_Stream_bad.cfg", work, workers=4, timeout=600, deque=False)
+    finally:
+        shutil.rmtree(work, ignore_errors=True)
+    refuted = "Invariant C19_ExactBytesInOrder is violated" in out or "Invariant C19_MarkedFinished is violated" in out
+    if not refuted:
+        raise common.ToolError("the wrong variant of the stream design (MC_Stream_bad.cfg) is not refuted: the invariants are vacuous\n" + out[-2000:])
+    return res, refuted
+
+
 def run(pid, tier, seed):
     common.build_harness()
     work = common.scratch()
@@ -46,6 +124,14 @@ def run(pid, tier, seed):
             gens = list(ex.map(gen, [(work, s, runs, seed) for s in range(shards)]))
         with cf.ThreadPoolExecutor(max_workers=max(2, common.NCPU // 2)) as ex:
             viols = list(ex.map(validate, [(work, g[0]) for g in gens]))
+            confs = list(ex.map(conform, [(work, g[0]) for g in gens]))
+        mc, refuted = model_check(tier)
+        divergences = {}
+        for _, d in confs:
+            for k, v in d.items():
+                divergences[k] = divergences.get(k, 0) + v
+        for k, v in sorted(divergences.items()):
+            print(f"CONFORMANCE-DIVERGENCE (diagnostic, not a verdict): {k} on {v} run(s): the real stream writer / reader differs from StreamModel")
         violations = []
         for (trace, _), vs in zip(gens, viols):
             byrun = {}
@@ -68,7 +154,9 @@ def run(pid, tier, seed):
         coverage = {"states": n_runs, "transitions": sum(g[1]["executions"] for g in gens),
                     "traces_validated_against_impl": n_runs, "samples": [sample],
                     "behaviours": n_runs, "task_executions": sum(g[1]["executions"] for g in gens),
-                    "checker_cmd": "tlc -workers 1 -config StreamTrace.cfg StreamTrace.tla (TRACE=<shard>)",
+                    "checker_cmd": "tlc -workers 1 -config StreamTrace.cfg StreamTrace.tla (TRACE=<shard>); tlc -workers 1 -config StreamModelTrace.cfg StreamModelTrace.tla (TRACE=<shard, one model action per line>); tlc -config MC_Stream_<inst>.cfg StreamModel.tla",
+                    "model_checking": mc, "wrong_design_refuted": refuted,
+                    "model_action_lines_validated": sum(c[0] for c in confs), "conformance_divergences": divergences,
                     "explanation": "states = behaviours (sets of interleaved task executions) realised with the real writer and read with the real reader"}
         return {"level": "model_checking", "coverage": coverage, "violations": violations,
                 "assumptions": ["chunks are handed to the real StreamSender directly (the process/pipe layer of program.rs is not run)",
